@@ -8,11 +8,11 @@
 from . import common, l2, recipes
 
 SPEC = {
-    "lean": ["SnowModel.Props.C04", "SnowModel.Props.L1Bridge"],
+    "lean": ["SnowModel.Props.C04", "SnowModel.Props.C04L2", "SnowModel.Props.L1Bridge"],
     "pins": ["Runtime", "ObjectRows", "ObjectModel"],
-    "technique": "Lean 4 refinement theorem on the L1 machine (for every op sequence, a save/load inserted at an iteration boundary changes no observation, no error and no later behaviour) + L2 theorem iterations(a+b) = iterations a ; iterations b + pinned persisted keys + real split-vs-unsplit oracle over all compositions + L2 chain differential",
-    "level_text": "Machine-checked proof that, for every operation sequence of the id/slot/registry machine, stopping after an iteration boundary and continuing from the continuation state is observationally identical to not stopping (same ids, same lookups, same errors, equivalent final state; composable, so any number of cuts), and that a+b iterations of the reference interpreter equal a iterations followed by b; what the file carries (keys written and how they are read back) is pinned from the AST; the recipe-level equality on the real code is checked for every composition of k<=4 (quick) iterations on generated recipes and against the Lean chain model.",
-    "level_note": "Trusted: Lean kernel, py2lean, harness. The L2-level equality through the file (values of persisted rows) is tied by differential, not proved: the model mirrors that ObjectRow.__getstate__ drops row-valued fields (finding D03) and that a slot value cannot be represented (finding D04). ContinuationSafe (decidable, used by the oracle): no top-level `var` (the top-level variable context lives for a whole run and is not persisted), no random or clock functions.",
+    "technique": "Lean 4 refinement theorem on the L1 machine (for every op sequence, a save/load inserted at an iteration boundary changes no observation, no error and no later behaviour) + L2 theorems: iterations(a+b) = iterations a ; iterations b, and chain parts = one run of sum(parts) iterations for every recipe without top-level variables whose persistent rows hold plain values at every cut (decidable; implied by the syntactic condition LitOnce), with witnesses that each hypothesis is needed + pinned persisted keys + real split-vs-unsplit oracle over all compositions + L2 chain differential",
+    "level_text": "Machine-checked proof that, for every operation sequence of the id/slot/registry machine, stopping after an iteration boundary and continuing from the continuation state is observationally identical to not stopping (same ids, same lookups, same errors, equivalent final state; composable, so any number of cuts), that a+b iterations of the reference interpreter equal a iterations followed by b, and that a chain of continued runs of the reference interpreter equals the uninterrupted run (state, output and status) whenever the continuation file loses nothing (no top-level variable; persistent rows hold no row/slot value at the cuts, which `saveLoad_identity` turns into `saveLoad s = s`); what the file carries (keys written and how they are read back) is pinned from the AST; the recipe-level equality on the real code is checked for every composition of k<=4 (quick) iterations on generated recipes and against the Lean chain model.",
+    "level_note": "Trusted: Lean kernel, py2lean, harness. The L2-level equality through the file is proved under the decidable hypotheses NoTopVars + CleanCuts (the harness evaluates them on every generated case and reports how often they hold); outside them it is false in the model and in the code alike (witnesses chain_eq_iterations_needs_clean / _needs_noTopVars / _needs_pos): the model mirrors that ObjectRow.__getstate__ drops row-valued fields (finding D03) and that a slot value cannot be represented (finding D04). ContinuationSafe (decidable, used by the oracle): no top-level `var` (the top-level variable context lives for a whole run and is not persisted), no random or clock functions.",
     "assumptions": ["cross-iteration state is only what Snowfakery documents as persistent (ContinuationSafe)"],
     "budget": {"quick": 600, "thorough": 3000},
 }
@@ -154,6 +154,26 @@ def flush(rep, pending):
         rep.count("compare:" + r)
         if r != "outside":
             rep.traces_validated += 1
+    # the hypotheses of the L2 split theorems (Props/C04L2), evaluated by the model on the very cases run above:
+    # how often they hold (non-vacuity, measured) and, where they hold, the theorem's instance on the executable model
+    multi = [(c, m) for (c, _), m in zip(pending, res) if len(c["parts"]) > 1 and m[0] == "ok" and not m[1]["status"].startswith(("outside", "fuel"))]
+    hyp = common.model_batch([{"m": "l2.hyp", "recipe": c["ast"], "parts": c["parts"]} for c, _ in multi])
+    single = common.model_batch([{"m": "l2.run", "recipe": c["ast"], "parts": [sum(c["parts"])], "final_save": False} for c, _ in multi])
+    for (case, m), h, one in zip(multi, hyp, single):
+        if h[0] != "ok" or one[0] != "ok":
+            rep.disagreement("l2.hyp:driver-error", case, h, one)
+            continue
+        hv = h[1]
+        rep.count("thm:no_top_vars" if hv["no_top_vars"] else "thm:top-vars")
+        if hv["lit_once"] and hv["no_top_vars"]:
+            rep.count("thm:syntactic hypotheses hold (LitOnce, NoTopVars)")
+        if hv["no_top_vars"] and hv["positive"] and hv["clean_cuts"]:
+            rep.count("thm:chain_eq_iterations hypotheses hold")
+            if (m[1]["status"], m[1]["rows"]) != (one[1]["status"], one[1]["rows"]):
+                rep.disagreement("l2.hyp:theorem-instance (runChain_split) fails on the executable model", case,
+                                 {"status": m[1]["status"], "n": len(m[1]["rows"])}, {"status": one[1]["status"], "n": len(one[1]["rows"])})
+        else:
+            rep.count("thm:hypotheses fail (%s)" % ("top-vars" if not hv["no_top_vars"] else "persistent row holds a row/slot value"))
     pending.clear()
 
 
